@@ -369,6 +369,8 @@ class AbsExec:
                 args = [self.operand(fr, a) for a in t["args"]]
                 val = self.domain.call(self, fk, args, t, fr)
                 if val is NotImplemented:
+                    val = int_builtin(self, fk, args)
+                if val is NotImplemented:
                     cb = self.F.bodies.get(fk.d)
                     if cb is not None and self.inline(fk.d):
                         sub = AbsExec(self.F, self.domain, self.max_steps, self.max_paths, self.inline)
@@ -384,6 +386,12 @@ class AbsExec:
                         if hasattr(self.domain, "select_inline_results"):
                             rs = self.domain.select_inline_results(self, rs)
                         vals = [r[0] for r in rs]
+                        if len(rs) > 1:
+                            # several callee paths: what they wrote through `&mut` arguments is not path-separated here
+                            for aop, av in zip(t["args"], args):
+                                if isinstance(av, Ref) and aop.get("k") in ("copy", "move") and not aop["place"]["p"] \
+                                        and fr.body.locals[aop["place"]["l"]]["ty"].startswith("&mut"):
+                                    self._write_into(av.frame, av.local, list(av.proj), self.domain.havoc_value(self, fr.body.locals[aop["place"]["l"]]["ty"]) if hasattr(self.domain, "havoc_value") else TOP)
                         val = vals[0] if vals and all(_same(v, vals[0]) for v in vals) else (self.domain.join(self, vals) if hasattr(self.domain, "join") and vals else TOP)
                     else:
                         val = TOP
@@ -509,3 +517,130 @@ def deref_value(ex, v):
 def store_through(ex, ref, val):
     if isinstance(ref, Ref):
         ex._write_into(ref.frame, ref.local, list(ref.proj), val)
+
+
+_INT_BITS = {"u8": 8, "u16": 16, "u32": 32, "u64": 64, "usize": 64, "u128": 128}
+
+
+class CoreIter:
+    """A literal iteration space (constant range / array) being consumed."""
+    def __init__(self, items, pos=0):
+        self.items, self.pos = list(items), pos
+
+    def __repr__(self):
+        return "CoreIter(%d@%d)" % (len(self.items), self.pos)
+
+
+def _as_iter(v):
+    if isinstance(v, CoreIter):
+        return v
+    if isinstance(v, Adt) and v.name.endswith("ops::Range") and len(v.fields) == 2 and all(isinstance(x, int) and not isinstance(x, bool) for x in v.fields) \
+            and v.fields[1] - v.fields[0] <= 4096:
+        return CoreIter(range(v.fields[0], max(v.fields[0], v.fields[1])))
+    if isinstance(v, Adt) and v.name.endswith("ops::RangeInclusive") and len(v.fields) >= 2 and all(isinstance(x, int) and not isinstance(x, bool) for x in v.fields[:2]) \
+            and v.fields[1] - v.fields[0] <= 4096:
+        return CoreIter(range(v.fields[0], max(v.fields[0], v.fields[1] + 1)))
+    return None
+
+
+def int_builtin(ex, fk, args):
+    """Integer intrinsics of core on constant arguments (so that a loop bound written as `n.ilog2()` or
+    `BITS - n.leading_zeros() - 1` is the same constant either way), and iteration over constant ranges."""
+    d = fk.d
+    nm = fk.name
+    if nm in ("into_iter", "iter", "rev", "next", "enumerate", "len", "next_back") and args and (d.startswith("core::iter") or d.startswith("<core::ops::Range") or "Iterator" in d or "IntoIterator" in d or "core::ops::Range" in fk.i):
+        v0 = deref_value(ex, args[0])
+        it = _as_iter(v0)
+        if it is not None and len(args) == 1:
+            if nm in ("into_iter", "iter"):
+                return it
+            if nm == "rev":
+                return CoreIter(list(reversed(it.items[it.pos:])))
+            if nm == "enumerate":
+                return CoreIter([Tup([i, x]) for i, x in enumerate(it.items[it.pos:])])
+            if nm == "len":
+                return len(it.items) - it.pos
+            if nm == "next":
+                if it.pos < len(it.items):
+                    store_through(ex, args[0], CoreIter(it.items, it.pos + 1))
+                    return Adt("core::option::Option", "Some", [it.items[it.pos]])
+                return Adt("core::option::Option", "None", [])
+            if nm == "next_back":
+                if it.pos < len(it.items):
+                    store_through(ex, args[0], CoreIter(it.items[:-1], it.pos))
+                    return Adt("core::option::Option", "Some", [it.items[-1]])
+                return Adt("core::option::Option", "None", [])
+    m = None
+    if d.startswith("core::num::<impl "):
+        ty = d[len("core::num::<impl "):].split(">")[0]
+        m = _INT_BITS.get(ty)
+    a = [deref_value(ex, x) for x in args]
+    if any(isinstance(x, bool) for x in a):
+        a = [int(x) if isinstance(x, bool) else x for x in a]
+    if not a or not all(isinstance(x, int) for x in a):
+        return NotImplemented
+    n = fk.name
+    if m:
+        x = a[0]
+        mask = (1 << m) - 1
+        if n == "leading_zeros" and len(a) == 1:
+            return m - x.bit_length()
+        if n == "trailing_zeros" and len(a) == 1:
+            return m if x == 0 else (x & -x).bit_length() - 1
+        if n == "ilog2" and len(a) == 1 and x > 0:
+            return x.bit_length() - 1
+        if n == "count_ones" and len(a) == 1:
+            return bin(x).count("1")
+        if n == "count_zeros" and len(a) == 1:
+            return m - bin(x).count("1")
+        if n == "is_power_of_two" and len(a) == 1:
+            return x != 0 and x & (x - 1) == 0
+        if n == "pow" and len(a) == 2 and a[1] < 4096:
+            return (x ** a[1]) & mask
+        if len(a) == 2:
+            y = a[1]
+            if n == "wrapping_add":
+                return (x + y) & mask
+            if n == "wrapping_sub":
+                return (x - y) & mask
+            if n == "wrapping_mul":
+                return (x * y) & mask
+            if n == "wrapping_shl":
+                return (x << (y % m)) & mask
+            if n == "wrapping_shr":
+                return x >> (y % m)
+            if n == "saturating_sub":
+                return max(0, x - y)
+            if n == "saturating_add":
+                return min(mask, x + y)
+            if n in ("min",):
+                return min(x, y)
+            if n in ("max",):
+                return max(x, y)
+            if n == "div_ceil" and y:
+                return -(-x // y)
+            if n in ("checked_sub",):
+                return Adt("core::option::Option", "Some", [x - y]) if x >= y else Adt("core::option::Option", "None", [])
+            if n in ("checked_add",):
+                return Adt("core::option::Option", "Some", [x + y]) if x + y <= mask else Adt("core::option::Option", "None", [])
+            if n == "overflowing_add":
+                return Tup([(x + y) & mask, x + y > mask])
+            if n == "overflowing_sub":
+                return Tup([(x - y) & mask, x < y])
+            if n == "abs_diff":
+                return abs(x - y)
+    if d in ("core::cmp::min", "core::cmp::Ord::min") and len(a) == 2:
+        return min(a)
+    if d in ("core::cmp::max", "core::cmp::Ord::max") and len(a) == 2:
+        return max(a)
+    return NotImplemented
+
+
+def same_module_inline(F, root_path):
+    """Inlining policy: crate-local callees defined in the same source file as the analysed function (where an extracted
+    helper lives) are analysed in place whenever the domain has no transfer function for them."""
+    def file_of(p):
+        b = F.bodies.get(p)
+        return ((b.rec.get("span") or {}).get("file")) if b is not None else None
+    m = file_of(root_path)
+    return lambda d: m is not None and file_of(d) == m
